@@ -422,11 +422,25 @@ def mask_plumbing(ctx):
             facts = fm.paths_at(n)
             if facts:
                 ctx.ok('C08.5', gh, n, 'unstructured files read headers through the (masked) in-memory arrays')
+    mask_use(ctx, 'C08.5')
+    ctx.floor('C08.5', 6)
+
+
+def mask_use(ctx, rule):
+    """read_variant_headers compacts an array with the population mask iff the file is 3D, unstructured and padding was
+    not requested - decided by propositional equivalence over (is_3d, structured, include_padding); the stored value
+    is `values[mask]` under exactly that flag and `values` otherwise."""
+    P = ctx.P
     rv = P.func(RF.READER + '.read_variant_headers')
     um = [a for a in ast.walk(rv.node) if isinstance(a, ast.Assign) and U(a.targets[0]) == 'use_mask']
-    if um and bool_equiv(um[0].value, ['self.is_3d', 'self.structured', 'self.include_padding'],
-                         lambda a, b, c: a and not b and not c):
-        ctx.ok('C08.5', rv, um[0], 'arrays are masked for unstructured 3D files unless padding is requested')
+    stores = [a for a in ast.walk(rv.node) if isinstance(a, ast.Assign) and isinstance(a.targets[0], ast.Subscript) and
+              U(a.targets[0].value) == 'self.variant_headers']
+    sel_ok = bool(stores) and all(isinstance(a.value, ast.IfExp) and U(a.value.test) == 'use_mask' and
+                                  'self.mask' in U(a.value.body) and 'mask' not in U(a.value.orelse) for a in stores)
+    if um and sel_ok and bool_equiv(um[0].value, ['self.is_3d', 'self.structured', 'self.include_padding'],
+                                    lambda a, b, c: a and not b and not c):
+        ctx.ok(rule, rv, um[0], 'arrays are masked for unstructured 3D files unless padding is requested')
     else:
-        ctx.fail('C08.5', rv, um[0] if um else rv.name, 'mask use is not `is_3d and not (structured or include_padding)`')
-    ctx.floor('C08.5', 6)
+        ctx.fail(rule, rv, (stores or um or [rv.name])[0], 'read_variant_headers does not mask exactly when `is_3d and not '
+                 '(structured or include_padding)`: a caller that asks for the padded grid arrays (the re-blocker, '
+                 'get_tracefield_values) can receive the compacted ones')
